@@ -21,7 +21,7 @@ pub fn run(env: &Env) -> Report {
     let sparse = write_probe_sparse(&dir);      // absent / empty entries in every pattern (no fall-back between the planes)
     // shards: 0..8 phonetic (by code range), 8..40 fixed (numpad × 16 code ranges), 40 rank comparison
     let nph = 8; let nfx = 64;
-    let reps = par_map(nph + nfx + 1, |si| {
+    let reps = par_map(nph + nfx + 2, |si| {
         let mut rep = Report::new("tie");
         let mut t = env.trace(&format!("tie.{}", si));
         if si < nph {
@@ -57,6 +57,38 @@ pub fn run(env: &Env) -> Report {
                     rep.eval(None);
                 }
             }
+        } else if si == nph + nfx + 1 {
+            // the modifier byte on ITS complete domain: all 256 values x every published key code (+ neighbours that are not published)
+            // in both methods, number pad on and off, both probe layouts
+            let mut codes: Vec<u16> = KEYS.iter().map(|k| k.1).collect();
+            for extra in [0u16, 1, 58, 59, 0x0E00, 0x0E35, 0x0E36, 0xA000, 0xFFFF] { if !codes.contains(&extra) { codes.push(extra); } }
+            let mut opts = Opts::none(); opts.phonetic_suggestion = false;
+            let xdg = env.fresh_xdg(&format!("tie-{}", si));
+            t.line("case tie-modifier-bytes-phonetic");
+            let mut s = Sess::new(&mut t, &env.data, "c", PHONETIC, opts, &xdg).expect("context");
+            for &code in &codes { for m in 0..=255u8 {
+                let o = s.key(&mut t, code, m, 0);
+                if o == Obs::Panic { rep.violation("C01", "panic", format!("phonetic key {} modifier {} panicked", code, m), json!({"stream": "tie", "layout": PHONETIC, "opts": opts.bits_str(), "events": [format!("key {} {} 0", code, m)]})); }
+                if s.imp.ongoing() { s.finish(&mut t); }
+                rep.eval(None); rep.count("modifier-byte-case");
+            } }
+            t.line("drop c");
+            for (li, lp) in [probe.to_str().unwrap(), sparse.to_str().unwrap()].iter().enumerate() {
+                for numpad in [false, true] {
+                    let mut opts = Opts::none(); opts.numpad = numpad;
+                    t.layout(lp, &env.tsv);
+                    t.line(&format!("case tie-modifier-bytes-fixed-{}-numpad{}", li, numpad as u8));
+                    let id = format!("f{}{}", li, numpad as u8);
+                    let mut s = Sess::new(&mut t, &env.data, &id, lp, opts, &xdg).expect("context");
+                    for &code in &codes { for m in 0..=255u8 {
+                        let o = s.key(&mut t, code, m, 0);
+                        if o == Obs::Panic { rep.violation("C01", "panic", format!("fixed key {} modifier {} panicked", code, m), json!({"stream": "tie", "layout": lp, "opts": opts.bits_str(), "events": [format!("key {} {} 0", code, m)]})); }
+                        if s.imp.ongoing() { s.finish(&mut t); }
+                        rep.eval(None); rep.count("modifier-byte-case");
+                    } }
+                    t.line(&format!("drop {}", id));
+                }
+            }
         } else {
             // `impl Ord for Rank`: one line per (variant, rank) of the left operand and variant of the right one, the 256
             // outcomes for the right operand's rank numbers as a string over L E G
@@ -77,6 +109,6 @@ pub fn run(env: &Env) -> Report {
     let mut rep = Report::new("tie");
     for r in reps { rep.merge(r); }
     rep.exhaustive = true;
-    rep.notes.push("complete domain: 65536 key codes x 2 modifier bytes (phonetic), x 7 modifier bytes x numpad on/off x 2 layouts (fixed: probe layout, sparse probe layout), 4x4x256x256 rank comparisons — all replayed on the Lean model".into());
+    rep.notes.push("complete domain: 65536 key codes x 2 modifier bytes (phonetic), x 7 modifier bytes x numpad on/off x 2 layouts (fixed: probe layout, sparse probe layout), all 256 modifier bytes x every published key code in both methods, 4x4x256x256 rank comparisons — all replayed on the Lean model".into());
     rep
 }
